@@ -78,6 +78,10 @@ var queries = []qspec{
 	{"x-A-class1001", "x.example.com.", dns.TypeA, 1001, "8.8.8.8", ""},
 	{"1x-A-class100", "1x.example.com.", dns.TypeA, 100, "8.8.8.8", ""},
 	{"c-A-cname", "c.example.com.", dns.TypeA, dns.ClassINET, "8.8.8.8", ""},
+	// types and classes that agree with A / IN in their low byte (a key that stores them in one byte collides)
+	{"www-TYPE257", "www.example.com.", 257, dns.ClassINET, "8.8.8.8", ""},
+	{"www-A-class257", "www.example.com.", dns.TypeA, 257, "8.8.8.8", ""},
+	{"www-TYPE65281", "www.example.com.", 65281, dns.ClassINET, "8.8.8.8", ""},
 }
 
 func (q qspec) msg() *dns.Msg {
